@@ -155,7 +155,7 @@ func (obj *SparseIntVector) APPEND(w *SparseIntVector) *SparseIntVector {
   r.n = obj.n + w.Dim()
   for it := w.ITERATOR(); it.Ok(); it.Next() {
     i := obj.n+it.Index()
-    r.values[i] = it.GET()
+    r.values[i] = it.GET().Clone()
     r.indexInsert(i)
   }
   return r
@@ -252,7 +252,7 @@ func (obj *SparseIntVector) AppendScalar(scalars ...Scalar) Vector {
   for i, scalar := range scalars {
     switch s := scalar.(type) {
     case Int:
-      r.values[obj.n+i] = s
+      r.values[obj.n+i] = s.Clone()
     default:
       r.values[obj.n+i] = s.ConvertScalar(IntType).(Int)
     }
@@ -268,7 +268,10 @@ func (obj *SparseIntVector) AppendVector(w_ Vector) Vector {
     r := obj.Clone()
     r.n = obj.n + w.Dim()
     for it := w.Iterator(); it.Ok(); it.Next() {
-      r.values[obj.n+it.Index()] = it.Get().ConvertScalar(IntType).(Int)
+      // the elements of w may have the same scalar type, do not share them
+      s := NullInt()
+      s.Set(it.Get())
+      r.values[obj.n+it.Index()] = s
       r.indexInsert(obj.n+it.Index())
     }
     return r
